@@ -1843,8 +1843,9 @@ func (s *ExtCommunitySet) Remove(arg DefinedSet) error {
 	newSubtypes := make([]bgp.ExtendedCommunityAttrSubType, 0, len(s.subtypeList))
 	for i, x := range s.list {
 		found := false
-		for _, y := range other.list {
-			if x.String() == y.String() {
+		for j, y := range other.list {
+			// an entry is its sub-type and its expression: "soo:X" must not remove "rt:X"
+			if x.String() == y.String() && s.subtypeList[i] == other.subtypeList[j] {
 				found = true
 				break
 			}
